@@ -16,7 +16,7 @@ import subprocess
 import sys
 
 VERIF = os.path.dirname(os.path.dirname(os.path.abspath(__file__)))
-SCRATCH = "/tmp/seedeval"
+SCRATCH = os.environ.get("SEED_SCRATCH", "/tmp/seedeval")
 ALL = [f"C{i:02d}" for i in range(1, 21)]
 
 
@@ -75,7 +75,7 @@ def main():
     src, sid, pid = sys.argv[1], sys.argv[2], sys.argv[3]
     checks = ALL
     if "--checks" in sys.argv:
-        checks = sys.argv[sys.argv.index("--checks") + 1].split(",")
+        checks = [c for c in sys.argv[sys.argv.index("--checks") + 1].split(",") if c and c != "none"]
     patch = os.path.join(src, "patch.diff")
     demo = os.path.join(src, "demo.rs")
     meta = {"seed": sid, "property": pid, "source": "fresh sub-agent given only the property text and a scratch worktree"}
@@ -130,7 +130,7 @@ def main():
         print("NOT CONFIRMED — not kept")
         sys.exit(1)
     # ---- 2 run the checks against the patched /repo (evidence files of the unchanged tree are preserved)
-    caught = run_checks(patch, checks)
+    caught = run_checks(patch, checks) if checks else {}
     meta["checks"] = caught
     meta["caught_by"] = sorted(c for c, r in caught.items() if r["result"].startswith(("violation", "no-failing")))
     meta["caught_by_target_property"] = pid in meta["caught_by"]
